@@ -283,7 +283,7 @@ def run(ck, ix, tier):
             """the argument that is taken as *units* by the registry-bound constructor `x` (None if absent)"""
             if not isinstance(x, ast.Call):
                 return None
-            f_ = norm(x.func)
+            f_ = shape.rnorm(x.func, mi.node)          # through an alias such as `quantity_cls = self._REGISTRY.Quantity`
             kw = {k.arg: k.value for k in x.keywords}
             if f_ == "self._REGISTRY.Quantity":
                 return x.args[1] if len(x.args) > 1 else kw.get("units")
